@@ -38,6 +38,7 @@ type PropMeta struct {
 	FrameExempt   map[string]string `json:"frame_exempt"`   // function -> reason (functions that run user code)
 	BoundedPkg    string            `json:"bounded_pkg"`    // package dir (relative to repo) of the bounded stand-in test
 	BoundedTest   string            `json:"bounded_test"`   // test function name (file: bounded/<id>/bounded_test.go)
+	BoundedDir    string            `json:"bounded_dir"`    // directory under /verif/bounded holding the stand-in (default: the property id)
 	ReplayHelpers []string          `json:"replay_helpers"` // extra files (relative to /verif/replay) injected beside the driver
 	ReplayRace    bool              `json:"replay_race"`    // build the driver with the race detector; a reported race is a witness
 	Audit         []string          `json:"audit"`          // thorough tier: tests of /verif/audit (bounded differential audit of assumed library contracts)
@@ -558,7 +559,11 @@ func replayFile(repo, verifDir, path string) int {
 
 // runBounded runs the property's bounded stand-in test against the real code.
 func runBounded(repo, verifDir, id string, meta PropMeta, seed int, tier, input string) (stats string, fails []string, out string) {
-	src := filepath.Join(verifDir, "bounded", id, "bounded_test.go")
+	dir := id
+	if meta.BoundedDir != "" {
+		dir = meta.BoundedDir
+	}
+	src := filepath.Join(verifDir, "bounded", dir, "bounded_test.go")
 	if _, err := os.Stat(src); err != nil {
 		return "", nil, "no bounded test file"
 	}
